@@ -228,9 +228,8 @@ def oracle(item, impl):
             return "panic while decoding: " + impl
         return "harness error: " + impl
     if op == 0:
-        ok = all(chr(c).isalnum() and c < 128 or c == 0x25 for c in impl)
-        if not ok:
-            return "escape() left a non-alphanumeric character unescaped"
+        # the property asks for unescape(escape(s)) == s; which characters get escaped is not
+        # constrained here (the query-string round trip, op 3, is what needs '+', '&', '=' … escaped)
         if list(pct_decode(bytes(impl))) != arg:
             return "escape() output does not percent-decode to the input"
         return None
@@ -306,3 +305,42 @@ LEVEL_NOTE = ("Trusted: Coq kernel, ExtrOcamlBasic extraction + OCaml driver, th
               "percent_encoding, url::Url::parse (path-absolute subset), form_urlencoded, from_utf8_lossy; the nested "
               "router's params memo is modelled but not exercised by the harness. No axioms.")
 TECHNIQUE = "Coq proof (induction over byte strings and maps) + differential correspondence of the extracted model with the Rust code"
+
+
+def _utf8(b):
+    try:
+        bytes(b).decode("utf-8")
+        return True
+    except Exception:
+        return False
+
+
+def _seg_ok(b):
+    s = bytes(b)
+    return (len(s) > 0 and _utf8(s) and pct_decode(s).lower() not in (b".", b"..")
+            and not any(c in s for c in b"/\\?#\t\n\r"))
+
+
+def valid_case(item):
+    """preconditions of the generator that the shrinker has to preserve"""
+    case = item["case"]
+    try:
+        op, arg = case[0], case[1]
+        if item.get("kind") == "malformed-url":
+            return _utf8(arg)
+        if op in (0, 1):
+            return _utf8(arg)
+        if op == 2:
+            s = bytes(arg).strip(bytes(range(0, 33)))
+            return _utf8(arg) and s[:1] == b"/" and s[1:2] not in (b"/", b"\\")
+        if op == 3:
+            keys = [tuple(k) for k, vs in arg]
+            return (len(set(keys)) == len(keys) and all(len(vs) > 0 for k, vs in arg)
+                    and all(_utf8(k) and all(_utf8(v) for v in vs) for k, vs in arg))
+        if op == 4:
+            return all(_utf8(k) and _utf8(v) for k, v in arg)
+        if op == 5:
+            return len(arg) == 2 and _seg_ok(arg[0]) and _seg_ok(arg[1])
+    except Exception:
+        return False
+    return False
